@@ -2400,11 +2400,13 @@ EbErrorType read_tile_group_obu(Bitstrm *bs, EbDecHandle *dec_handle_ptr, TilesI
 
             ParseTileData *parse_tile_data      = main_parse_ctxt->parse_tile_data;
             parse_tile_data[tile_num].data      = get_bitsteam_buf(bs);
-            parse_tile_data[tile_num].data_end  = bs->buf_max;
+            parse_tile_data[tile_num].data_end  = bs->buf_max - 8; // buf_max lies 8 bytes beyond the data
             parse_tile_data[tile_num].tile_size = tile_size;
 
             start_parse_tile(dec_handle_ptr, parse_ctxt, tiles_info, tile_num, is_mt);
-            dec_bits_init(bs, (get_bitsteam_buf(bs) + tile_size), obu_header->payload_size);
+            dec_bits_init(bs,
+                          (get_bitsteam_buf(bs) + tile_size),
+                          (tile_num == tg_end) ? 0 : obu_header->payload_size); // nothing follows the last tile
         }
     }
 
@@ -2524,6 +2526,10 @@ EbErrorType decode_multiple_obu(EbDecHandle *dec_handle_ptr, uint8_t **data, siz
             obu_header.payload_size -= obu_header.size;
 
         payload_size = obu_header.payload_size;
+
+        // the header and its size field may have been cut off by the end of the data
+        if (data_size < obu_header.size + length_size)
+            return EB_Corrupt_Frame;
 
         *data += (obu_header.size + length_size);
         data_size -= (obu_header.size + length_size);
